@@ -8,10 +8,12 @@ Import ListNotations.
 (* what the harness observed for one operation.
    o_phase: 0 = rejected for lack of a learning rule, 1 = exception raised inside check_xy, 2 = exception raised later,
             3 = no exception.  o_out: shape of the returned array (None when the node itself is returned).
-   o_same: dims, initialised flag, state() bytes and the fingerprint of every param are identical before and after. *)
+   o_same: dims, initialised flag, registered-teacher flag, state() bytes and the fingerprint of every param are identical
+   before and after. *)
 Record obs := mkObs {
   o_exc : option exn; o_phase : nat; o_out : option (list nat);
-  o_init : bool; o_ind : option (list nat); o_outd : option nat; o_state : option (list nat); o_same : bool }.
+  o_init : bool; o_ind : option (list nat); o_outd : option nat; o_state : option (list nat); o_same : bool;
+  o_teacher : bool   (* node._teacher is not None *) }.
 
 Definition olist_eqb (a b : option (list nat)) : bool :=
   match a, b with Some x, Some y => lnat_eqb x y | None, None => true | _, _ => false end.
@@ -20,11 +22,14 @@ Definition onat_eqb (a b : option nat) : bool :=
 
 Definition node_matches (n : node) (o : obs) : bool :=
   Bool.eqb (initialized n) (o_init o) && olist_eqb (input_dim n) (o_ind o) && onat_eqb (output_dim n) (o_outd o)
-  && olist_eqb (state_shape n) (o_state o).
+  && olist_eqb (state_shape n) (o_state o)
+  && Bool.eqb (match teacher n with Some _ => true | None => false end) (o_teacher o).
 
 (* the model says nothing was touched  =>  the observation must say so too *)
 Definition same_ok (n n' : node) (o : obs) : bool :=
-  if (params_version n =? params_version n') && (state_version n =? state_version n') then o_same o else true.
+  if (params_version n =? params_version n') && (state_version n =? state_version n')
+     && Bool.eqb (match teacher n with Some _ => true | None => false end) (match teacher n' with Some _ => true | None => false end)
+  then o_same o else true.
 
 Definition phase_code (p : phase) : nat := match p with PSupport => 0 | PCheck => 1 | _ => 2 end.
 
